@@ -167,7 +167,8 @@ def one_bilinear(chk, inst, cell, req, U, V, d, payload, lean_jobs):
                           f"reference {spec[k].flatten()[:6].tolist()}", payload)
             return
     # model: Lean dual-number model, member by member
-    if inst.lean:
+    # (the un-memoised Lean model is slow on large trees: the driver gets the base catalogue only — batch rank <= 1, d <= 2)
+    if inst.lean and len(inst.batch) <= 1 and d <= 2 and inst.batch != (1,):
         lean_jobs.append(make_lean_job(inst, cell, P, U, V, d, names, impl, payload))
 
 
@@ -254,7 +255,7 @@ def denote_cases(chk, insts_by, only=None):
     that the theorems are stated against)."""
     lines, expect = [], []
     for (batch, mode), insts in insts_by.items():
-        if mode != "full":
+        if mode != "full" or batch not in ((), (2,)):
             continue
         for inst in insts:
             if not inst.lean or inst.node.kind == "brep":
@@ -275,6 +276,9 @@ def denote_cases(chk, insts_by, only=None):
                 expect.append((cell, (D[midx] if inst.nb else D).reshape(-1)))
                 lines.append(f"dden {' '.join(toks)} {ps} {ds}")
                 expect.append((cell, (JD[midx] if inst.nb else JD).reshape(-1)))
+                n_, m_ = inst.shape()
+                lines.append(f"dbil 2 {' '.join(toks)} {ps} {ds} {flat(ops.ri(chk.rng, (n_, 2), -2, 2))} {flat(ops.ri(chk.rng, (m_, 2), -2, 2))}")
+                expect.append((cell + "/dbil", None))
             chk.case(cell, nontrivial=True, sample=False)
     outs = chk.run_driver("C07", lines)
     if outs is None:
@@ -282,6 +286,13 @@ def denote_cases(chk, insts_by, only=None):
     for o, (cell, want) in zip(outs, expect):
         if o.startswith("bad"):
             chk.corr_break(cell, f"driver rejected: {o}", {"cell": cell})
+            continue
+        if want is None:  # model-internal: pair(bilinDeriv) vs bil(dDenote) (the statement of the main theorem, all classes)
+            a, b = o.split(" ")
+            if a == b:
+                chk.traces_validated += 1
+            else:
+                chk.corr_break(cell, f"model: pair(bilinDeriv o θ U V, δ) = {a} but bil(dDenote o θ δ, U, V) = {b}", {"cell": cell})
             continue
         got = torch.tensor([float(Fraction(x)) for x in o.split(",")], dtype=torch.float64) if o != "-" else torch.zeros(0, dtype=torch.float64)
         if got.shape == want.shape and torch.equal(got, want.double()):
@@ -523,8 +534,23 @@ def one_entry(chk, inst, entry, rk, cname, memeff, cholsz, sk, cell, payload, se
             chk.count(f"skipped:forward-raises:{entry}:{type(e).__name__}")
             return
         w = W(chk, out_i.shape)
-        gi = torch.autograd.grad((out_i * w).sum(), in_i, allow_unused=True) if in_i else []
+        lanczos = entry in ("root", "root_inv") and cholsz == 0
+        try:
+            gi = torch.autograd.grad((out_i * w).sum(), in_i, allow_unused=True) if in_i else []
+        except Exception as e:
+            if lanczos and "nan" in str(e).lower():  # Lanczos breakdown (spurious zero Ritz value -> NaN inverse root): C09's concern
+                chk.count("skipped:lanczos-breakdown")
+                return
+            raise
+        if lanczos and any(g is not None and bool(torch.isnan(g).any()) for g in gi):
+            chk.count("skipped:lanczos-breakdown")
+            return
     out_r, in_r, P_r = run_side(False)
+    if entry == "sqrt_inv_matmul":  # the eigh-based reference gradient is unreliable for (nearly) repeated eigenvalues
+        ev = torch.linalg.eigvalsh(inst.dense(inst.params()).detach())
+        if ev.shape[-1] > 1 and float(((ev[..., 1:] - ev[..., :-1]).min(-1).values / ev.max(-1).values).min()) < 2e-2:
+            chk.count("skipped:reference-eigengap")
+            return
     chk.case(f"{cell}|{sorted(req)}|rhsreq={rhs_req}|w={w.flatten()[:4].tolist()}", nontrivial=True)
     chk.count("entry:" + entry)
     chk.count("cfg:" + cname)
@@ -591,8 +617,8 @@ def gen_instances(chk):
     quick = chk.tier == "quick"
     res = {}
     combos = [((), "full"), ((2,), "full"), ((2,), "bcast")] if quick else [((), "full"), ((2,), "full"), ((2,), "bcast"), ((2, 3), "bcast"), ((1,), "full")]
-    for batch, mode in combos:
-        res[(batch, mode)] = ops.instances(chk.rng, batch, 3 if quick else chk.rng.choice([3, 4]), mode=mode)
+    for ci, (batch, mode) in enumerate(combos):
+        res[(batch, mode)] = ops.instances(chk.rng, batch, 3 if (quick or ci < 3) else chk.rng.choice([3, 4]), mode=mode)
     return res
 
 
